@@ -121,11 +121,13 @@ pub fn code_append(push_state: &mut PushState, _instruction_cache: &InstructionC
 /// CODE.ATOM: Pushes TRUE onto the BOOLEAN stack if the top piece of code is a single instruction
 /// or a literal, and FALSE otherwise (that is, if it is something surrounded by parentheses).
 pub fn code_item(push_state: &mut PushState, _instruction_cache: &InstructionCache) {
-    // Equality only checks type and ignores value
-    push_state.bool_stack.push(
-        push_state.code_stack.last_eq(&Item::int(0))
-            || push_state.code_stack.last_eq(&Item::noop()),
-    );
+    if let Some(top) = push_state.code_stack.get(0) {
+        let is_atom = match top {
+            Item::List { items: _ } => false,
+            _ => true,
+        };
+        push_state.bool_stack.push(is_atom);
+    }
 }
 
 /// CODE.CAR: Pushes the first item of the list on top of the CODE stack. For example, if the top
